@@ -14,7 +14,6 @@ def jobs(tier):
             out.append(J(n, ep))
     if tier == "quick":
         out.append(J(3, 0))
-        out.append(J(3, 2))
     return out
 
 
@@ -36,7 +35,9 @@ PROP = {
     "level_note": "Faults are mapped to Go error/response shapes by the contract table stated in harness/C15/failover.go (trusted). The per-upstream Prometheus.Query/... methods are cut at the keyed lock + worker channel and hand the query to the real processJob; net/http, encoding/json tokenisation and yaml are cut; github.com/prymitive/current, tryDecodingAPIError, stream*, decodeError, IsUnavailableError run for real. errors.Is/As are engine models walking the concrete Unwrap chain.",
     "runs": [{"pkg": "./internal/promapi", "harness": ["harness/C15/failover.go"], "intmode": True, "jobs": jobs},
              {"pkg": "./internal/checks", "harness": ["harness/C15/severity.go"], "aux": {"./internal/promapi": ["harness/C15/failover.go"]}, "intmode": True, "jobs": jobs_sev}],
-    "bounds": {"upstreams": "1..3", "fault modes": 9, "endpoints": 5},
-    "assumptions": [],
+    "bounds": {"upstreams": "quick: 1..2 for every endpoint (3 for query); thorough: 1..3 everywhere, both runs", "fault modes": 9, "endpoints": 5,
+               "HTTP status": "symbolic inside the fault's class (2xx, 4xx without 404, 404, 5xx)", "errorType": "atom over 10 names + 1 anonymous", "error text": "3 concrete texts"},
+    "assumptions": ["the contract table in harness/C15/failover.go is what net/http hands to pint for each fault mode",
+                    "one request per FailoverGroup (no state carried between requests except the unsupported-API flags, which start clear)"],
     "outside": ["the keyed lock and worker pool (C14)", "RangeQuery slicing (C13)", "net/http transport behaviour beyond the contract table"],
 }
